@@ -78,6 +78,13 @@ func writeEvidence(p Property, tier string, seed uint64, st *Stats, violations i
 		"components":                           realVsStub,
 		"workers":                              workers,
 	}
+	measures := map[string]int{}
+	for name, m := range st.sets {
+		measures[name] = len(m)
+	}
+	if len(measures) > 0 {
+		cov["distinct_by_other_measures"] = measures
+	}
 	if raceInfo != nil {
 		cov["race_stage"] = raceInfo
 	}
